@@ -61,6 +61,12 @@ def gen_leaf(rng):
 
 
 def gen_comp(rng):
+    if rng.random() < 0.2:
+        # revert / warm-replacement histories: the swapped-in instance has already run on the very inputs it is given
+        tpl = rng.choice([[["run"], ["replace", "fresh", 1], ["run"], ["replace", "back", 1], ["run"]],
+                          [["run"], ["replace", "prerun-equal", 1], ["run"]],
+                          [["run"], ["replace", "fresh", 1], ["run"], ["assign", 2], ["run"], ["assign", 1], ["replace", "back", 1], ["run"]]])
+        return {"fam": "comp", "x": 1, "ops": [list(o) for o in tpl]}
     ops = []
     for _ in range(rng.randint(4, 14)):
         r = rng.random()
@@ -73,7 +79,9 @@ def gen_comp(rng):
         elif r < 0.82:
             ops.append(["add"])                       # add a dangling child: resets the macro's cache
         elif r < 0.86:
-            ops.append(["replace"])                   # swap child b for a node with another function (resets the cache)
+            # swap child b: for a fresh node with another function, for the node swapped out earlier (revert), or for an
+            # instance that already ran standalone on some input (its own cache and outputs are warm)
+            ops.append(["replace", rng.choice(["fresh", "back", "back", "prerun"]), rng.choice([1, 2, 3])])
         elif r < 0.93:
             ops.append(["silent-input", rng.choice([7, 9])])   # m.b.inputs.k = c : internal input without macro counterpart
         else:
@@ -205,10 +213,17 @@ def comp_trace(case, use_cache):
     nodes.reset()
     m = CM(label="m", x=case["x"])
     m.recovery = None
-    if not use_cache:
-        m.use_cache = False
+
+    def uncache():
+        # "caching switched off": on the macro and on every node inside it
+        if not use_cache:
+            m.use_cache = False
+            for c in m:
+                c.use_cache = False
+    uncache()
     tr = []
     extra = 0
+    spare = None
     for op in case["ops"]:
         out = "done"
         try:
@@ -224,9 +239,33 @@ def comp_trace(case, use_cache):
             elif op[0] == "add":
                 extra += 1
                 m.add_child(nodes.Lin0(label=f"x{extra}", tag=50 + extra, k=1))
+                uncache()
             elif op[0] == "replace":
-                cls = nodes.Chk1x if type(m.b).__name__ == "Chk1" else nodes.Chk1
-                m.replace_child(m.b, cls(label="r", tag=2))
+                how = op[1] if len(op) > 1 else "fresh"
+                if how == "back" and spare is not None:
+                    new = spare
+                else:
+                    cls = nodes.Chk1x if type(m.b).__name__ == "Chk1" else nodes.Chk1
+                    new = cls(label="r", tag=2)
+                    if how == "prerun-equal":
+                        if not use_cache:
+                            new.use_cache = False
+                        new.recovery = None
+                        try:
+                            new.run(k=m.b.inputs.k.value, a=m.a.outputs.y.value)
+                        except Exception:
+                            pass
+                    if how == "prerun":
+                        if not use_cache:
+                            new.use_cache = False
+                        new.recovery = None
+                        try:
+                            new.run(k=5, a=3 + (op[2] if len(op) > 2 else 1))
+                        except Exception:
+                            pass
+                old, _ = m.replace_child(m.b, new)
+                spare = old
+                uncache()
             elif op[0] == "silent-input":
                 m.b.inputs.k.value = op[1]
             elif op[0] == "silent-rewire":
